@@ -200,7 +200,16 @@ fn violate(rng: &mut Rng, doc: &mut Y) -> &'static str {
             ("bool", 2) => { m.remove("init"); return "missing-init"; }
             ("bool", 3) => { m.insert(ys("init"), ys("yes please")); return "bool-init-wrong-type"; }
             ("enum", 2) => { let first = m.get("values").and_then(|v| v.as_sequence()).and_then(|s| s.first().cloned()).unwrap_or(ys("a")); m.insert(ys("values"), Y::Sequence(vec![first.clone()])); m.insert(ys("init"), first); return "enum-one-value"; }
-            ("enum", 3) => { let first = m.get("values").and_then(|v| v.as_sequence()).and_then(|s| s.first().cloned()).unwrap_or(ys("a")); m.insert(ys("values"), Y::Sequence(vec![first.clone(), first.clone()])); m.insert(ys("init"), first); return "enum-duplicate-values"; }
+            ("enum", 3) => {
+                // a repeated value anywhere in the list (adjacent or not); `init` stays a listed value
+                let mut vals: Vec<Y> = m.get("values").and_then(|v| v.as_sequence()).cloned().unwrap_or_else(|| vec![ys("a"), ys("b")]);
+                if vals.is_empty() { vals.push(ys("a")); }
+                let dup = vals[rng.below(vals.len() as u64) as usize].clone();
+                let pos = rng.below(vals.len() as u64 + 1) as usize;
+                vals.insert(pos, dup);
+                m.insert(ys("values"), Y::Sequence(vals));
+                return "enum-duplicate-values";
+            }
             ("enum", 4) => { m.insert(ys("init"), ys("zzUnknown")); return "enum-unknown-init"; }
             ("enum", 5) => { if let Some(Y::Sequence(s)) = m.get_mut("values") { s.push(yi(3)); return "enum-item-not-string"; } }
             ("enum", 6) => { m.insert(ys("values"), ys("a, b")); return "enum-values-not-sequence"; }
